@@ -2698,6 +2698,170 @@ let word_ranges =
     (XO (XI (XO (XI (XI (XI (XO (XO (XO (XI (XO (XO (XI
     XH))))))))))))))))))) :: [])))))))))))))))))))))))))))))))))))))))))))))))))))))))))))))))))))))))))))))))))))))))))))))))))))))))))))))))))))))))))))))))))))))))))))))))))))))))))))))))))))))))))))))))))))))))))))))))))))))))))))))))))))))))))))))))))))))))))))))))))))))))))))))))))))))))))))))))))))))))))))))))))))))))))))))))))))))))))))))))))))))))))))))))))))))))))))))))))))))))))))))))))))))))))))))))))))))))))))))))))))))))))))))))))))))))))))))))))))))))))))))))))))))))))))))))))))))))))))))))))))))))))))))))))))))))))))))))))))))))))))))))))))))))))))))))))))))))))))))))))))))))))))))))))))))))))))))))))))))))))))))))))))))))))))))))))))))))))))))))))))))))))))))))))))))))))))))))))))))))))))))))))))))))))))))))))))))))))))))))))))))))))))))))))))))))))))
 
+(** val digit_ranges : (n * n) list **)
+
+let digit_ranges =
+  ((Npos (XO (XO (XO (XO (XI XH)))))), (Npos (XI (XO (XO (XI (XI
+    XH))))))) :: (((Npos (XO (XO (XO (XO (XO (XI (XI (XO (XO (XI
+    XH))))))))))), (Npos (XI (XO (XO (XI (XO (XI (XI (XO (XO (XI
+    XH)))))))))))) :: (((Npos (XO (XO (XO (XO (XI (XI (XI (XI (XO (XI
+    XH))))))))))), (Npos (XI (XO (XO (XI (XI (XI (XI (XI (XO (XI
+    XH)))))))))))) :: (((Npos (XO (XO (XO (XO (XO (XO (XI (XI (XI (XI
+    XH))))))))))), (Npos (XI (XO (XO (XI (XO (XO (XI (XI (XI (XI
+    XH)))))))))))) :: (((Npos (XO (XI (XI (XO (XO (XI (XI (XO (XI (XO (XO
+    XH)))))))))))), (Npos (XI (XI (XI (XI (XO (XI (XI (XO (XI (XO (XO
+    XH))))))))))))) :: (((Npos (XO (XI (XI (XO (XO (XI (XI (XI (XI (XO (XO
+    XH)))))))))))), (Npos (XI (XI (XI (XI (XO (XI (XI (XI (XI (XO (XO
+    XH))))))))))))) :: (((Npos (XO (XI (XI (XO (XO (XI (XI (XO (XO (XI (XO
+    XH)))))))))))), (Npos (XI (XI (XI (XI (XO (XI (XI (XO (XO (XI (XO
+    XH))))))))))))) :: (((Npos (XO (XI (XI (XO (XO (XI (XI (XI (XO (XI (XO
+    XH)))))))))))), (Npos (XI (XI (XI (XI (XO (XI (XI (XI (XO (XI (XO
+    XH))))))))))))) :: (((Npos (XO (XI (XI (XO (XO (XI (XI (XO (XI (XI (XO
+    XH)))))))))))), (Npos (XI (XI (XI (XI (XO (XI (XI (XO (XI (XI (XO
+    XH))))))))))))) :: (((Npos (XO (XI (XI (XO (XO (XI (XI (XI (XI (XI (XO
+    XH)))))))))))), (Npos (XI (XI (XI (XI (XO (XI (XI (XI (XI (XI (XO
+    XH))))))))))))) :: (((Npos (XO (XI (XI (XO (XO (XI (XI (XO (XO (XO (XI
+    XH)))))))))))), (Npos (XI (XI (XI (XI (XO (XI (XI (XO (XO (XO (XI
+    XH))))))))))))) :: (((Npos (XO (XI (XI (XO (XO (XI (XI (XI (XO (XO (XI
+    XH)))))))))))), (Npos (XI (XI (XI (XI (XO (XI (XI (XI (XO (XO (XI
+    XH))))))))))))) :: (((Npos (XO (XI (XI (XO (XO (XI (XI (XO (XI (XO (XI
+    XH)))))))))))), (Npos (XI (XI (XI (XI (XO (XI (XI (XO (XI (XO (XI
+    XH))))))))))))) :: (((Npos (XO (XI (XI (XO (XO (XI (XI (XI (XI (XO (XI
+    XH)))))))))))), (Npos (XI (XI (XI (XI (XO (XI (XI (XI (XI (XO (XI
+    XH))))))))))))) :: (((Npos (XO (XO (XO (XO (XI (XO (XI (XO (XO (XI (XI
+    XH)))))))))))), (Npos (XI (XO (XO (XI (XI (XO (XI (XO (XO (XI (XI
+    XH))))))))))))) :: (((Npos (XO (XO (XO (XO (XI (XO (XI (XI (XO (XI (XI
+    XH)))))))))))), (Npos (XI (XO (XO (XI (XI (XO (XI (XI (XO (XI (XI
+    XH))))))))))))) :: (((Npos (XO (XO (XO (XO (XO (XI (XO (XO (XI (XI (XI
+    XH)))))))))))), (Npos (XI (XO (XO (XI (XO (XI (XO (XO (XI (XI (XI
+    XH))))))))))))) :: (((Npos (XO (XO (XO (XO (XO (XO (XI (XO (XO (XO (XO
+    (XO XH))))))))))))), (Npos (XI (XO (XO (XI (XO (XO (XI (XO (XO (XO (XO
+    (XO XH)))))))))))))) :: (((Npos (XO (XO (XO (XO (XI (XO (XO (XI (XO (XO
+    (XO (XO XH))))))))))))), (Npos (XI (XO (XO (XI (XI (XO (XO (XI (XO (XO
+    (XO (XO XH)))))))))))))) :: (((Npos (XO (XO (XO (XO (XO (XI (XI (XI (XI
+    (XI (XI (XO XH))))))))))))), (Npos (XI (XO (XO (XI (XO (XI (XI (XI (XI
+    (XI (XI (XO XH)))))))))))))) :: (((Npos (XO (XO (XO (XO (XI (XO (XO (XO
+    (XO (XO (XO (XI XH))))))))))))), (Npos (XI (XO (XO (XI (XI (XO (XO (XO
+    (XO (XO (XO (XI XH)))))))))))))) :: (((Npos (XO (XI (XI (XO (XO (XO (XI
+    (XO (XI (XO (XO (XI XH))))))))))))), (Npos (XI (XI (XI (XI (XO (XO (XI
+    (XO (XI (XO (XO (XI XH)))))))))))))) :: (((Npos (XO (XO (XO (XO (XI (XO
+    (XI (XI (XI (XO (XO (XI XH))))))))))))), (Npos (XI (XO (XO (XI (XI (XO
+    (XI (XI (XI (XO (XO (XI XH)))))))))))))) :: (((Npos (XO (XO (XO (XO (XO
+    (XO (XO (XI (XO (XI (XO (XI XH))))))))))))), (Npos (XI (XO (XO (XI (XO
+    (XO (XO (XI (XO (XI (XO (XI XH)))))))))))))) :: (((Npos (XO (XO (XO (XO
+    (XI (XO (XO (XI (XO (XI (XO (XI XH))))))))))))), (Npos (XI (XO (XO (XI
+    (XI (XO (XO (XI (XO (XI (XO (XI XH)))))))))))))) :: (((Npos (XO (XO (XO
+    (XO (XI (XO (XI (XO (XI (XI (XO (XI XH))))))))))))), (Npos (XI (XO (XO
+    (XI (XI (XO (XI (XO (XI (XI (XO (XI XH)))))))))))))) :: (((Npos (XO (XO
+    (XO (XO (XI (XI (XO (XI (XI (XI (XO (XI XH))))))))))))), (Npos (XI (XO
+    (XO (XI (XI (XI (XO (XI (XI (XI (XO (XI XH)))))))))))))) :: (((Npos (XO
+    (XO (XO (XO (XO (XO (XI (XO (XO (XO (XI (XI XH))))))))))))), (Npos (XI
+    (XO (XO (XI (XO (XO (XI (XO (XO (XO (XI (XI XH)))))))))))))) :: (((Npos
+    (XO (XO (XO (XO (XI (XO (XI (XO (XO (XO (XI (XI XH))))))))))))), (Npos
+    (XI (XO (XO (XI (XI (XO (XI (XO (XO (XO (XI (XI
+    XH)))))))))))))) :: (((Npos (XO (XO (XO (XO (XO (XI (XO (XO (XO (XI (XI
+    (XO (XO (XI (XO XH)))))))))))))))), (Npos (XI (XO (XO (XI (XO (XI (XO (XO
+    (XO (XI (XI (XO (XO (XI (XO XH))))))))))))))))) :: (((Npos (XO (XO (XO
+    (XO (XI (XO (XI (XI (XO (XO (XO (XI (XO (XI (XO XH)))))))))))))))), (Npos
+    (XI (XO (XO (XI (XI (XO (XI (XI (XO (XO (XO (XI (XO (XI (XO
+    XH))))))))))))))))) :: (((Npos (XO (XO (XO (XO (XO (XO (XO (XO (XI (XO
+    (XO (XI (XO (XI (XO XH)))))))))))))))), (Npos (XI (XO (XO (XI (XO (XO (XO
+    (XO (XI (XO (XO (XI (XO (XI (XO XH))))))))))))))))) :: (((Npos (XO (XO
+    (XO (XO (XI (XO (XI (XI (XI (XO (XO (XI (XO (XI (XO XH)))))))))))))))),
+    (Npos (XI (XO (XO (XI (XI (XO (XI (XI (XI (XO (XO (XI (XO (XI (XO
+    XH))))))))))))))))) :: (((Npos (XO (XO (XO (XO (XI (XI (XI (XI (XI (XO
+    (XO (XI (XO (XI (XO XH)))))))))))))))), (Npos (XI (XO (XO (XI (XI (XI (XI
+    (XI (XI (XO (XO (XI (XO (XI (XO XH))))))))))))))))) :: (((Npos (XO (XO
+    (XO (XO (XI (XO (XI (XO (XO (XI (XO (XI (XO (XI (XO XH)))))))))))))))),
+    (Npos (XI (XO (XO (XI (XI (XO (XI (XO (XO (XI (XO (XI (XO (XI (XO
+    XH))))))))))))))))) :: (((Npos (XO (XO (XO (XO (XI (XI (XI (XI (XI (XI
+    (XO (XI (XO (XI (XO XH)))))))))))))))), (Npos (XI (XO (XO (XI (XI (XI (XI
+    (XI (XI (XI (XO (XI (XO (XI (XO XH))))))))))))))))) :: (((Npos (XO (XO
+    (XO (XO (XI (XO (XO (XO (XI (XI (XI (XI (XI (XI (XI XH)))))))))))))))),
+    (Npos (XI (XO (XO (XI (XI (XO (XO (XO (XI (XI (XI (XI (XI (XI (XI
+    XH))))))))))))))))) :: (((Npos (XO (XO (XO (XO (XO (XI (XO (XI (XO (XO
+    (XI (XO (XO (XO (XO (XO XH))))))))))))))))), (Npos (XI (XO (XO (XI (XO
+    (XI (XO (XI (XO (XO (XI (XO (XO (XO (XO (XO
+    XH)))))))))))))))))) :: (((Npos (XO (XO (XO (XO (XI (XI (XO (XO (XI (XO
+    (XI (XI (XO (XO (XO (XO XH))))))))))))))))), (Npos (XI (XO (XO (XI (XI
+    (XI (XO (XO (XI (XO (XI (XI (XO (XO (XO (XO
+    XH)))))))))))))))))) :: (((Npos (XO (XI (XI (XO (XO (XI (XI (XO (XO (XO
+    (XO (XO (XI (XO (XO (XO XH))))))))))))))))), (Npos (XI (XI (XI (XI (XO
+    (XI (XI (XO (XO (XO (XO (XO (XI (XO (XO (XO
+    XH)))))))))))))))))) :: (((Npos (XO (XO (XO (XO (XI (XI (XI (XI (XO (XO
+    (XO (XO (XI (XO (XO (XO XH))))))))))))))))), (Npos (XI (XO (XO (XI (XI
+    (XI (XI (XI (XO (XO (XO (XO (XI (XO (XO (XO
+    XH)))))))))))))))))) :: (((Npos (XO (XI (XI (XO (XI (XI (XO (XO (XI (XO
+    (XO (XO (XI (XO (XO (XO XH))))))))))))))))), (Npos (XI (XI (XI (XI (XI
+    (XI (XO (XO (XI (XO (XO (XO (XI (XO (XO (XO
+    XH)))))))))))))))))) :: (((Npos (XO (XO (XO (XO (XI (XO (XI (XI (XI (XO
+    (XO (XO (XI (XO (XO (XO XH))))))))))))))))), (Npos (XI (XO (XO (XI (XI
+    (XO (XI (XI (XI (XO (XO (XO (XI (XO (XO (XO
+    XH)))))))))))))))))) :: (((Npos (XO (XO (XO (XO (XI (XI (XI (XI (XO (XI
+    (XO (XO (XI (XO (XO (XO XH))))))))))))))))), (Npos (XI (XO (XO (XI (XI
+    (XI (XI (XI (XO (XI (XO (XO (XI (XO (XO (XO
+    XH)))))))))))))))))) :: (((Npos (XO (XO (XO (XO (XI (XO (XI (XO (XO (XO
+    (XI (XO (XI (XO (XO (XO XH))))))))))))))))), (Npos (XI (XO (XO (XI (XI
+    (XO (XI (XO (XO (XO (XI (XO (XI (XO (XO (XO
+    XH)))))))))))))))))) :: (((Npos (XO (XO (XO (XO (XI (XO (XI (XI (XO (XO
+    (XI (XO (XI (XO (XO (XO XH))))))))))))))))), (Npos (XI (XO (XO (XI (XI
+    (XO (XI (XI (XO (XO (XI (XO (XI (XO (XO (XO
+    XH)))))))))))))))))) :: (((Npos (XO (XO (XO (XO (XI (XO (XI (XO (XO (XI
+    (XI (XO (XI (XO (XO (XO XH))))))))))))))))), (Npos (XI (XO (XO (XI (XI
+    (XO (XI (XO (XO (XI (XI (XO (XI (XO (XO (XO
+    XH)))))))))))))))))) :: (((Npos (XO (XO (XO (XO (XO (XO (XI (XI (XO (XI
+    (XI (XO (XI (XO (XO (XO XH))))))))))))))))), (Npos (XI (XO (XO (XI (XO
+    (XO (XI (XI (XO (XI (XI (XO (XI (XO (XO (XO
+    XH)))))))))))))))))) :: (((Npos (XO (XO (XO (XO (XI (XI (XO (XO (XI (XI
+    (XI (XO (XI (XO (XO (XO XH))))))))))))))))), (Npos (XI (XO (XO (XI (XI
+    (XI (XO (XO (XI (XI (XI (XO (XI (XO (XO (XO
+    XH)))))))))))))))))) :: (((Npos (XO (XO (XO (XO (XO (XI (XI (XI (XO (XO
+    (XO (XI (XI (XO (XO (XO XH))))))))))))))))), (Npos (XI (XO (XO (XI (XO
+    (XI (XI (XI (XO (XO (XO (XI (XI (XO (XO (XO
+    XH)))))))))))))))))) :: (((Npos (XO (XO (XO (XO (XI (XO (XI (XO (XI (XO
+    (XO (XI (XI (XO (XO (XO XH))))))))))))))))), (Npos (XI (XO (XO (XI (XI
+    (XO (XI (XO (XI (XO (XO (XI (XI (XO (XO (XO
+    XH)))))))))))))))))) :: (((Npos (XO (XO (XO (XO (XI (XO (XI (XO (XO (XO
+    (XI (XI (XI (XO (XO (XO XH))))))))))))))))), (Npos (XI (XO (XO (XI (XI
+    (XO (XI (XO (XO (XO (XI (XI (XI (XO (XO (XO
+    XH)))))))))))))))))) :: (((Npos (XO (XO (XO (XO (XI (XO (XI (XO (XI (XO
+    (XI (XI (XI (XO (XO (XO XH))))))))))))))))), (Npos (XI (XO (XO (XI (XI
+    (XO (XI (XO (XI (XO (XI (XI (XI (XO (XO (XO
+    XH)))))))))))))))))) :: (((Npos (XO (XO (XO (XO (XO (XI (XO (XI (XI (XO
+    (XI (XI (XI (XO (XO (XO XH))))))))))))))))), (Npos (XI (XO (XO (XI (XO
+    (XI (XO (XI (XI (XO (XI (XI (XI (XO (XO (XO
+    XH)))))))))))))))))) :: (((Npos (XO (XO (XO (XO (XI (XO (XI (XO (XI (XI
+    (XI (XI (XI (XO (XO (XO XH))))))))))))))))), (Npos (XI (XO (XO (XI (XI
+    (XO (XI (XO (XI (XI (XI (XI (XI (XO (XO (XO
+    XH)))))))))))))))))) :: (((Npos (XO (XO (XO (XO (XO (XI (XI (XO (XO (XI
+    (XO (XI (XO (XI (XI (XO XH))))))))))))))))), (Npos (XI (XO (XO (XI (XO
+    (XI (XI (XO (XO (XI (XO (XI (XO (XI (XI (XO
+    XH)))))))))))))))))) :: (((Npos (XO (XO (XO (XO (XO (XO (XI (XI (XO (XI
+    (XO (XI (XO (XI (XI (XO XH))))))))))))))))), (Npos (XI (XO (XO (XI (XO
+    (XO (XI (XI (XO (XI (XO (XI (XO (XI (XI (XO
+    XH)))))))))))))))))) :: (((Npos (XO (XO (XO (XO (XI (XO (XI (XO (XI (XI
+    (XO (XI (XO (XI (XI (XO XH))))))))))))))))), (Npos (XI (XO (XO (XI (XI
+    (XO (XI (XO (XI (XI (XO (XI (XO (XI (XI (XO
+    XH)))))))))))))))))) :: (((Npos (XO (XI (XI (XI (XO (XO (XI (XI (XI (XI
+    (XI (XO (XI (XO (XI (XI XH))))))))))))))))), (Npos (XI (XI (XI (XI (XI
+    (XI (XI (XI (XI (XI (XI (XO (XI (XO (XI (XI
+    XH)))))))))))))))))) :: (((Npos (XO (XO (XO (XO (XO (XO (XI (XO (XI (XO
+    (XO (XO (XO (XI (XI (XI XH))))))))))))))))), (Npos (XI (XO (XO (XI (XO
+    (XO (XI (XO (XI (XO (XO (XO (XO (XI (XI (XI
+    XH)))))))))))))))))) :: (((Npos (XO (XO (XO (XO (XI (XI (XI (XI (XO (XI
+    (XO (XO (XO (XI (XI (XI XH))))))))))))))))), (Npos (XI (XO (XO (XI (XI
+    (XI (XI (XI (XO (XI (XO (XO (XO (XI (XI (XI
+    XH)))))))))))))))))) :: (((Npos (XO (XO (XO (XO (XI (XI (XI (XI (XO (XO
+    (XI (XO (XO (XI (XI (XI XH))))))))))))))))), (Npos (XI (XO (XO (XI (XI
+    (XI (XI (XI (XO (XO (XI (XO (XO (XI (XI (XI
+    XH)))))))))))))))))) :: (((Npos (XO (XO (XO (XO (XI (XO (XI (XO (XI (XO
+    (XO (XI (XO (XI (XI (XI XH))))))))))))))))), (Npos (XI (XO (XO (XI (XI
+    (XO (XI (XO (XI (XO (XO (XI (XO (XI (XI (XI
+    XH)))))))))))))))))) :: (((Npos (XO (XO (XO (XO (XI (XI (XI (XI (XI (XI
+    (XO (XI (XI (XI (XI (XI XH))))))))))))))))), (Npos (XI (XO (XO (XI (XI
+    (XI (XI (XI (XI (XI (XO (XI (XI (XI (XI (XI
+    XH)))))))))))))))))) :: [])))))))))))))))))))))))))))))))))))))))))))))))))))))))))))))))
+
 (** val rx_ws_base : rx **)
 
 let rx_ws_base =
@@ -3404,10 +3568,90 @@ let rx_ftl_trail =
 let parser_regexes =
   rx_ws_base :: (rx_nl_linecol :: (rx_re_br :: (rx_re_sgml :: (rx_props_key :: (rx_props_comment :: (rx_props_ws :: (rx_props_escaped_end :: (rx_props_trailing_ws :: (rx_props_escape :: (rx_dtd_key :: (rx_dtd_header :: (rx_dtd_comment :: (rx_dtd_pe :: (rx_dtd_ws :: (rx_ini_comment :: (rx_ini_section :: (rx_ini_key :: (rx_ini_ws :: (rx_inc_ws :: (rx_inc_comment :: (rx_inc_key :: (rx_inc_pi :: (rx_po_key :: (rx_po_value :: (rx_po_comment :: (rx_po_listitem :: (rx_po_ws :: (rx_ftl_lead :: (rx_ftl_trail :: [])))))))))))))))))))))))))))))
 
+(** val rx_printf : rx **)
+
+let rx_printf =
+  Cat ((Chr (false, (((Npos (XI (XO (XI (XO (XO XH)))))), (Npos (XI (XO (XI
+    (XO (XO XH))))))) :: []))), (Alt ((Grp ((S O), (Alt ((Chr (false, (((Npos
+    (XI (XO (XI (XO (XO XH)))))), (Npos (XI (XO (XI (XO (XO
+    XH))))))) :: []))), (Cat ((Alt ((Cat ((Grp ((S (S O)), (Cat ((Chr (false,
+    (((Npos (XI (XO (XO (XO (XI XH)))))), (Npos (XI (XO (XO (XI (XI
+    XH))))))) :: []))), (Rep (true, O, None, (Chr (false, (((Npos (XO (XO (XO
+    (XO (XI XH)))))), (Npos (XI (XO (XO (XI (XI XH))))))) :: []))))))))),
+    (Chr (false, (((Npos (XO (XO (XI (XO (XO XH)))))), (Npos (XO (XO (XI (XO
+    (XO XH))))))) :: []))))), Eps)), (Cat ((Alt ((Grp ((S (S (S O))), (Alt
+    ((Chr (false, (((Npos (XO (XI (XO (XI (XO XH)))))), (Npos (XO (XI (XO (XI
+    (XO XH))))))) :: []))), (Rep (true, (S O), None, (Chr (false, (((Npos (XO
+    (XO (XO (XO (XI XH)))))), (Npos (XI (XO (XO (XI (XI
+    XH))))))) :: []))))))))), Eps)), (Cat ((Alt ((Grp ((S (S (S (S O)))),
+    (Cat ((Chr (false, (((Npos (XO (XI (XI (XI (XO XH)))))), (Npos (XO (XI
+    (XI (XI (XO XH))))))) :: []))), (Alt ((Alt ((Chr (false, (((Npos (XO (XI
+    (XO (XI (XO XH)))))), (Npos (XO (XI (XO (XI (XO XH))))))) :: []))), (Rep
+    (true, (S O), None, (Chr (false, (((Npos (XO (XO (XO (XO (XI XH)))))),
+    (Npos (XI (XO (XO (XI (XI XH))))))) :: []))))))), Eps)))))), Eps)), (Grp
+    ((S (S (S (S (S O))))), (Chr (false, (((Npos (XO (XO (XI (XO (XO (XI
+    XH))))))), (Npos (XO (XO (XI (XO (XO (XI XH)))))))) :: (((Npos (XI (XO
+    (XI (XO (XI (XI XH))))))), (Npos (XI (XO (XI (XO (XI (XI
+    XH)))))))) :: (((Npos (XO (XO (XO (XI (XI (XI XH))))))), (Npos (XO (XO
+    (XO (XI (XI (XI XH)))))))) :: (((Npos (XO (XO (XO (XI (XI (XO XH))))))),
+    (Npos (XO (XO (XO (XI (XI (XO XH)))))))) :: (((Npos (XI (XI (XI (XI (XO
+    (XI XH))))))), (Npos (XI (XI (XI (XI (XO (XI XH)))))))) :: (((Npos (XI
+    (XI (XO (XO (XI (XI XH))))))), (Npos (XI (XI (XO (XO (XI (XI
+    XH)))))))) :: (((Npos (XI (XI (XO (XO (XI (XO XH))))))), (Npos (XI (XI
+    (XO (XO (XI (XO XH)))))))) :: (((Npos (XI (XI (XO (XO (XO (XI XH))))))),
+    (Npos (XI (XI (XO (XO (XO (XI XH)))))))) :: (((Npos (XO (XO (XO (XO (XI
+    (XI XH))))))), (Npos (XO (XO (XO (XO (XI (XI XH)))))))) :: (((Npos (XO
+    (XI (XI (XO (XO (XI XH))))))), (Npos (XO (XI (XI (XO (XO (XI
+    XH)))))))) :: (((Npos (XI (XI (XI (XO (XO (XI XH))))))), (Npos (XI (XI
+    (XI (XO (XO (XI XH)))))))) :: []))))))))))))))))))))))))), Eps)))
+
+(** val rx_digits_end : rx **)
+
+let rx_digits_end =
+  Cat ((Rep (true, (S O), None, (Chr (false, digit_ranges)))), (Eol false))
+
+(** val rx_plural_var : rx **)
+
+let rx_plural_var =
+  Cat ((Chr (false, (((Npos (XI (XI (XO (XO (XO XH)))))), (Npos (XI (XI (XO
+    (XO (XO XH))))))) :: []))), (Grp ((S O), (Rep (true, (S O), None, (Chr
+    (false, (((Npos (XO (XO (XO (XO (XI XH)))))), (Npos (XI (XO (XO (XI (XI
+    XH))))))) :: []))))))))
+
+(** val rx_mochibake : rx **)
+
+let rx_mochibake =
+  Chr (false, (((Npos (XI (XO (XI (XI (XI (XI (XI (XI (XI (XI (XI (XI (XI (XI
+    (XI XH)))))))))))))))), (Npos (XI (XO (XI (XI (XI (XI (XI (XI (XI (XI (XI
+    (XI (XI (XI (XI XH))))))))))))))))) :: []))
+
+(** val rx_c06_escape : rx **)
+
+let rx_c06_escape =
+  Cat ((Chr (false, (((Npos (XO (XO (XI (XI (XI (XO XH))))))), (Npos (XO (XO
+    (XI (XI (XI (XO XH)))))))) :: []))), (Grp ((S O), (Alt ((Grp ((S (S O)),
+    (Cat ((Chr (false, (((Npos (XI (XO (XI (XO (XI (XI XH))))))), (Npos (XI
+    (XO (XI (XO (XI (XI XH)))))))) :: []))), (Rep (true, (S O), (Some (S (S
+    (S (S O))))), (Chr (false, (((Npos (XO (XO (XO (XO (XI XH)))))), (Npos
+    (XI (XO (XO (XI (XI XH))))))) :: (((Npos (XI (XO (XO (XO (XO (XI
+    XH))))))), (Npos (XO (XI (XI (XO (XO (XI XH)))))))) :: (((Npos (XI (XO
+    (XO (XO (XO (XO XH))))))), (Npos (XO (XI (XI (XO (XO (XO
+    XH)))))))) :: []))))))))))), (Alt ((Grp ((S (S (S O))), (Cat ((Chr
+    (false, (((Npos (XO (XI (XO XH)))), (Npos (XO (XI (XO XH))))) :: []))),
+    (Rep (true, O, None, (Chr (false, (((Npos (XO (XO (XO (XO (XO XH)))))),
+    (Npos (XO (XO (XO (XO (XO XH))))))) :: (((Npos (XI (XO (XO XH)))), (Npos
+    (XI (XO (XO XH))))) :: [])))))))))), (Grp ((S (S (S (S O)))), (Chr (true,
+    (((Npos (XO (XI (XO XH)))), (Npos (XO (XI (XO XH))))) :: []))))))))))))
+
+(** val c06_regexes : rx list **)
+
+let c06_regexes =
+  rx_printf :: (rx_digits_end :: (rx_plural_var :: (rx_mochibake :: (rx_c06_escape :: []))))
+
 (** val all_regexes : rx list **)
 
 let all_regexes =
-  parser_regexes
+  app parser_regexes c06_regexes
 
 (** val the_rx : sx -> rx **)
 
